@@ -328,8 +328,39 @@ func c03Query(r *rand.Rand, words []string) string {
 	if r.Intn(5) == 0 {
 		q = strings.ToUpper(q[:1]) + q[1:]
 	}
+	if r.Intn(6) == 0 {
+		// punctuation glued to a word, in front of it, behind it or around it (!word, word?, (word), +word, ~word, word: ...): to the
+		// index as to the scan a punctuation mark is a separator and nothing else
+		f := strings.Fields(q)
+		for k := 1 + r.Intn(2); k > 0 && len(f) > 0; k-- {
+			i := r.Intn(len(f))
+			pc := c03Punct[r.Intn(len(c03Punct))]
+			switch r.Intn(4) {
+			case 0:
+				f[i] = pc + f[i]
+			case 1:
+				f[i] = f[i] + pc
+			case 2:
+				f[i] = pc + f[i] + c03Punct[r.Intn(len(c03Punct))]
+			default:
+				f[i] = pc + pc + f[i]
+			}
+		}
+		q = strings.Join(f, " ")
+		c03PunctQueries++
+	}
 	return q
 }
+
+var c03PunctQueries, c03PunctSeen int64
+
+func c03NotePunct(ctx *Ctx) {
+	if c03PunctQueries > c03PunctSeen {
+		ctx.R.Path("requests-with-punctuation-glued-to-a-word", c03PunctQueries-c03PunctSeen)
+		c03PunctSeen = c03PunctQueries
+	}
+}
+var c03Punct = []string{"!", "\"", "#", "%", "'", "(", ")", "*", "+", ",", "-", ".", "/", ":", "=", "?", "@", "[", "\\", "]", "^", "_", "`", "{", "}", "~", "--", "!!", "+-", "~~"}
 
 // c03Fallback: the databases the loader hands out when the main database cannot be read (missing file: the built-in list; the
 // same with a malformed notebook, and with a malformed main file) answer like an exhaustive scan of their own entries, too.
@@ -523,6 +554,7 @@ func engineIndexScan(ctx *Ctx) {
 			}
 			for k := 0; k < nq; k++ {
 				q := c03Query(r, words)
+				c03NotePunct(ctx)
 				if len(extraWords) > 0 && k >= nq-3 {
 					q = extraWords[r.Intn(len(extraWords))]
 					if r.Intn(2) == 0 && len(words) > 0 {
@@ -748,6 +780,7 @@ func engineIndexScan(ctx *Ctx) {
 		sort.Strings(words)
 		for k := 0; k < ctx.Pick(10, 80); k++ {
 			q := c03Query(r, words[:4000])
+			c03NotePunct(ctx)
 			c03Check(ctx, db, []string{"load(shipped)"}, q, database.SearchOptions{AllPlatforms: r.Intn(3) > 0}, "load-shipped")
 		}
 	}
